@@ -77,6 +77,10 @@ func TestVerif_C16(t *testing.T) {
 		g := &vErrGen{r: rv, valid: i%10 < 7}
 		depth := 1 + i%4
 		e, ce, _ := g.gen(depth)
+		if e2, ce2, applied := vApplyOverride(i, e, ce); applied {
+			e, ce = e2, ce2
+			stats["fail_action_override"]++
+		}
 		msgid := ""
 		if rv.chance(50) {
 			msgid = fmt.Sprintf("%08x", rv.intn(1<<30))
